@@ -280,7 +280,7 @@ func TestC16_LiveSwitch(t *testing.T) {
 			c.Label("probe-ok:" + liveSwitchID)
 		}
 	}
-	if !ev.KnownActive(liveSwitchID) && t.Failed() {
+	if t.Failed() {
 		// the random search would only rediscover the same defect, slowly
 		c.Note("random live-switch cases skipped: the deterministic probe already fails and the finding is not listed")
 		return
